@@ -210,15 +210,36 @@ func RunWorker(c Check, tier string, seed uint64, from, to, stride int, outPath,
 		b, _ := json.Marshal(r)
 		out.Write(append(b, '\n'))
 	}
+	limit := 5 * time.Minute
+	if ct, ok := c.(CaseTimeouter); ok {
+		limit = ct.CaseTimeout(tier)
+	}
 	for i := from; i < to; i += stride {
 		cs := CaseSeed(seed, c.ID(), i)
 		enc(&CaseResult{Idx: i, Seed: cs, Status: "start"})
 		res := &CaseResult{Idx: i, Seed: cs, Status: "done"}
-		runCaseRecover(c, w, i, cs, res)
-		enc(res)
+		finished := make(chan struct{})
+		go func() {
+			runCaseRecover(c, w, i, cs, res)
+			close(finished)
+		}()
+		select {
+		case <-finished:
+			enc(res)
+		case <-time.After(limit):
+			// the case does not end (e.g. code under test spinning, a Stop() that waits for it): record it and give
+			// the rest of the list to a new worker process; a goroutine cannot be killed
+			buf := make([]byte, 1<<18)
+			n := runtime.Stack(buf, true)
+			fmt.Fprintf(os.Stderr, "CASE-WATCHDOG case %d did not end within %v\n%s\n", i, limit, buf[:n])
+			return 3
+		}
 	}
 	return 0
 }
+
+// CaseTimeouter lets a check set the watchdog of one case (default 5 minutes).
+type CaseTimeouter interface{ CaseTimeout(tier string) time.Duration }
 
 func runCaseRecover(c Check, w *Worker, i int, cs uint64, res *CaseResult) {
 	defer func() {
@@ -340,7 +361,11 @@ func RunParent(c Check, o Options) int {
 					return
 				}
 				// the worker died: attribute to the case it had started but not finished
-				tail := tailOf(logPath, 6000)
+				full := tailOf(logPath, 200000)
+				tail := full
+				if len(tail) > 8000 {
+					tail = tail[:8000]
+				}
 				if lastStart == nil {
 					harnessErr <- fmt.Sprintf("worker %d died before starting a case: %v\n%s", wi, werr, tail)
 					return
@@ -349,7 +374,7 @@ func RunParent(c Check, o Options) int {
 				cr.Status = "crashed"
 				cr.Findings = []Finding{{Verdict: Inconclusive, Key: "worker-died", Detail: fmt.Sprintf("%v\n%s", werr, tail)}}
 				if cv, ok := c.(CrashIsViolation); ok {
-					if key, isV := cv.CrashKey(tail); isV {
+					if key, isV := cv.CrashKey(full); isV {
 						cr.Findings = []Finding{{Verdict: Violated, Key: key, Detail: fmt.Sprintf("worker process died: %v\n%s", werr, tail)}}
 					}
 				}
@@ -408,7 +433,7 @@ func tailOf(p string, n int) string {
 	}
 	// prefer the first panic / fatal error message over the plain tail
 	s := string(b)
-	for _, m := range []string{"panic: ", "fatal error: ", "WARNING: DATA RACE"} {
+	for _, m := range []string{"CASE-WATCHDOG ", "panic: ", "fatal error: ", "WARNING: DATA RACE"} {
 		if i := strings.Index(s, m); i >= 0 {
 			e := i + n
 			if e > len(s) {
